@@ -997,7 +997,9 @@ def ishashable(obj: tp.Any) -> compat.TypeIs[tp.Hashable]:
         >>> ishashable(list())
         False
     """
-    return __hashgetter(obj) is not None
+    # Hashing is looked up on the type: a class such as `list` is itself hashable,
+    #   even though `list.__hash__` (which applies to its instances) is None.
+    return __hashgetter(obj.__class__) is not None
 
 
 @compat.cache
